@@ -165,7 +165,6 @@ def dispatcher_ok(d):
 @contract('pjrpc.server.dispatcher:Dispatcher.dispatch', also=('pjrpc.server.dispatcher:AsyncDispatcher.dispatch',),
           props=['C01', 'C02', 'C03'])
 class Dispatch:
-    clause_props = {'ensures_sequential_mode': ['C10'], 'modifies': ['C13']}
     types = {'self': 'pjrpc.server.dispatcher:BaseDispatcher', 'request_text': 'str', 'context': 'any'}
     raises_only = ()            # C01: the dispatcher never raises
     modifies = ('$trace',)
@@ -181,6 +180,33 @@ class Dispatch:
 
     def requires_config(self, request_text, context):
         return dispatcher_ok(self)
+
+    # ---- C02 inside a batch.  The batch branch is a filter over a map:
+    #           responses = [handler(r) for r in batch]        (comprehension "handled"; gather(*...) / awaits in async)
+    #           answered  = [x for x in responses if <kept>]    (comprehension "answered")
+    # Pinned here, each for a GENERIC element: the map runs over exactly the accepted batch's requests, in order; each
+    # produced element is UNSET for a notification and a Response with the identical id otherwise (chain without user
+    # middlewares); the filter keeps an element exactly when it is not UNSET.  That a comprehension is an
+    # order-preserving filter-map is the generator's semantics - together: every call is answered exactly once, in
+    # request order, success or failure alike, and no notification is.
+    comp_handled = {'elt_contains': '_request_handler'}
+    comp_answered = {'has_if': True}
+    clause_props = {'ensures_sequential_mode': ['C10'], 'modifies': ['C13'],
+                    'comp_handled__source': ['C02', 'C01'], 'comp_handled__element': ['C02', 'C01'],
+                    'comp_answered__keeps': ['C02', 'C01']}
+
+    def comp_handled__source(self, request_text, context, request, xs):
+        return seq_same(xs, request._requests)
+
+    def comp_handled__element(self, request_text, context, request, x, y):
+        if not same(self._request_handler, bound_method(self, '_handle_request')):
+            return True             # a user middleware may answer whatever it likes
+        if x._id is None:
+            return y is UNSET
+        return isinstance(y, Response) and same(y._id, x._id)
+
+    def comp_answered__keeps(self, request_text, context, x):
+        return x is not UNSET
 
     def ensures_shape(self, request_text, context, result):
         # C01: nothing, or (response text, error codes)
